@@ -2,7 +2,7 @@
 
 TLA+ model (mc/tla/Loop.tla) of the call protocol of
 RecurrentSelectionBreedingProgram.evolve, model checked by TLC once per constant
-assignment (NREP, NGEN, LOGINIT, PSELBEH); the COMPLETE state graph is dumped
+assignment (NREP, NGEN, LOGINIT, PSELBEH, EMPTY = which start containers are empty dicts); the COMPLETE state graph is dumped
 (-dump dot,actionlabels), parsed with plain Python, and EVERY behaviour of the
 graph (one per environment choice: behaviour of each of the four operators towards
 the state containers x start state given / obtained from the InitializationOperator)
@@ -24,7 +24,10 @@ ID = "C20"
 TECHNIQUE = ("TLA+ protocol model (mc/tla/Loop.tla, environment = operator behaviours included) model checked by TLC; "
              "complete state graph dumped and every behaviour replayed step by step against "
              "RecurrentSelectionBreedingProgram.evolve with instrumented operators (conformance + identity data-flow oracle)")
-RULE = ("one TLC run per (NREP, NGEN, LOGINIT, behaviour of the parent-selection operator); every initial state of the model is "
+RULE = ("one TLC run per (NREP, NGEN, LOGINIT, behaviour of the parent-selection operator, EMPTY = set of start containers that are "
+        "empty dicts: none on the full grid, 2 (quick) / 4 (thorough) non-trivial sets incl. all five on a sub-grid); a programme "
+        "constructed with a start state carries an InitializationOperator that would return a different state, so a spurious "
+        "re-initialisation is observable; every initial state of the model is "
         "one environment (4^4 operator behaviours {pure,inplace,alias,mixed} x start state given directly / via InitializationOperator) "
         "and yields one behaviour (the protocol is deterministic given the environment); every maximal path of the dumped graph is "
         "replayed on the real evolve(): once as one evolve() call, once more per way of splitting NREP>=2 into two consecutive evolve() calls "
@@ -49,7 +52,7 @@ BEHS = ("pure", "inplace", "alias", "mixed")
 MIXED = {"genome": "pure", "geno": "inplace", "pheno": "alias", "bval": "inplace", "gmod": "pure"}   # = MixedMap of Loop.tla
 CODE = {"psel": 1, "mate": 2, "eval": 3, "ssel": 4}                                                    # = Code of Loop.tla
 INVARIANTS = ("TypeOK TimeIndex OncePerGeneration LogAfterEveryStep RepCounter McfgFresh ReplicateStartsFromStart "
-              "StartNeverModified StartCleanForHonestEnv NothingBeforeInit").split()
+              "StartNeverModified StartCleanForHonestEnv NothingBeforeInit GivenStateIsKept").split()
 PROPERTIES = ["StepProps"]
 
 # model action label -> event the instrumented environment must observe (None: not observable from outside)
@@ -69,19 +72,20 @@ def alphabet(seed):
 
 # ============================================================================
 # TLC
-def write_cfg(path, nrep, ngen, loginit, pselbeh):
+def write_cfg(path, nrep, ngen, loginit, pselbeh, empty=()):
     with open(path, "w") as f:
         f.write("SPECIFICATION Spec\nCONSTANTS\n")
         f.write(f"  NREP = {nrep}\n  NGEN = {ngen}\n  LOGINIT = {'TRUE' if loginit else 'FALSE'}\n")
         f.write("  PSELBEH = {" + ", ".join('"%s"' % b for b in pselbeh) + "}\n")
+        f.write("  EMPTY = {" + ", ".join('"%s"' % c for c in empty) + "}\n")
         f.write("INVARIANTS\n" + "".join(f"  {i}\n" for i in INVARIANTS))
         f.write("PROPERTIES\n" + "".join(f"  {p}\n" for p in PROPERTIES))
 
 
-def run_tlc(scratch, nrep, ngen, loginit, pselbeh):
+def run_tlc(scratch, nrep, ngen, loginit, pselbeh, empty=()):
     """Model check Loop.tla for one constant assignment inside `scratch`; return (stats, dot path)."""
     shutil.copy(TLA_FILE, os.path.join(scratch, "Loop.tla"))
-    write_cfg(os.path.join(scratch, "Loop.cfg"), nrep, ngen, loginit, pselbeh)
+    write_cfg(os.path.join(scratch, "Loop.cfg"), nrep, ngen, loginit, pselbeh, empty)
     jtmp = os.path.join(scratch, "jtmp")
     os.makedirs(jtmp, exist_ok=True)
     env = dict(os.environ)
@@ -92,8 +96,8 @@ def run_tlc(scratch, nrep, ngen, loginit, pselbeh):
     out = p.stdout
     if "Model checking completed. No error has been found." not in out:
         keep = [l for l in out.splitlines() if not l.startswith(("Parsing", "Semantic", "Picked up", "Computed", "  ", "/\\"))]
-        raise RuntimeError("TLC did not verify Loop.tla for NREP=%s NGEN=%s LOGINIT=%s PSELBEH=%s (exit %s):\n%s"
-                           % (nrep, ngen, loginit, pselbeh, p.returncode, "\n".join(keep)[-3000:]))
+        raise RuntimeError("TLC did not verify Loop.tla for NREP=%s NGEN=%s LOGINIT=%s PSELBEH=%s EMPTY=%s (exit %s):\n%s"
+                           % (nrep, ngen, loginit, pselbeh, empty, p.returncode, "\n".join(keep)[-3000:]))
     m = re.search(r"(\d+) states generated, (\d+) distinct states found, (\d+) states left on queue", out)
     d = re.search(r"depth of the complete state graph search is (\d+)", out)
     if not m or int(m.group(3)) != 0:
@@ -212,20 +216,23 @@ class Box:
         self.items = items
 
 
-def make_state(label):
-    return tuple({"outer": (f"{label}:{c}",), "inner": Box([f"{label}:{c}"])} for c in CONT)
+def make_state(label, empty=()):
+    """The five start containers; those named in `empty` are empty dicts (a valid start container:
+    e.g. start_pheno = {} before anything has been phenotyped)."""
+    return tuple({} if c in empty else {"outer": (f"{label}:{c}",), "inner": Box([f"{label}:{c}"])} for c in CONT)
 
 
 def content(d):
+    """(dict-level entries, entries of the inner object's array); an empty dict is ((), ())."""
     try:
-        return (tuple(d["outer"]), tuple(d["inner"].items))
+        return (tuple(d.get("outer", ())), tuple(d["inner"].items) if "inner" in d else ())
     except Exception:
         return ("<malformed>", type(d).__name__)
 
 
 def ident(d):
     try:
-        return (id(d), id(d["inner"]), id(d["inner"].items))
+        return (id(d), id(d["inner"]), id(d["inner"].items)) if "inner" in d else (id(d), None, None)
     except Exception:
         return (id(d), None, None)
 
@@ -233,7 +240,9 @@ def ident(d):
 def shares(d, s):
     """Which levels of container d are the very objects of the stored start container s."""
     try:
-        return (d is s, d["inner"] is s["inner"], d["inner"].items is s["inner"].items)
+        if "inner" in d and "inner" in s:
+            return (d is s, d["inner"] is s["inner"], d["inner"].items is s["inner"].items)
+        return (d is s, False, False)
     except Exception:
         return ("<malformed>",)
 
@@ -272,14 +281,18 @@ def _apply(op, beh, rec, state, t_cur):
     for c, d in zip(CONT, state):
         b = MIXED[c] if beh == "mixed" else beh
         if b == "pure":
-            out.append({"outer": d["outer"] + (tok,), "inner": Box(list(d["inner"].items) + [tok])})
+            out.append({"outer": d.get("outer", ()) + (tok,),
+                        "inner": Box((list(d["inner"].items) if "inner" in d else []) + [tok])})
         elif b == "inplace":
-            d["outer"] = d["outer"] + (tok,)
-            d["inner"].items.append(tok)
+            d["outer"] = d.get("outer", ()) + (tok,)
+            if "inner" in d:
+                d["inner"].items.append(tok)
+            else:
+                d["inner"] = Box([tok])
             out.append(d)
-        else:  # alias: a new dict around the stored start container's inner object
+        else:  # alias: a new dict around the stored start container's inner object (nothing to share if that is empty)
             s = getattr(rec.prog, "start_" + c)
-            out.append({"outer": s["outer"], "inner": s["inner"]})
+            out.append(dict(s))
     return tuple(out)
 
 
@@ -330,22 +343,22 @@ class SOp(_Op, SurvivorSelectionOperator):
 
 class IOpLenient(InitializationOperator):
     """miscout optional, as in every example shipped with the library."""
-    def __init__(self, rec, label):
-        self.rec, self.label = rec, label
+    def __init__(self, rec, label, empty=()):
+        self.rec, self.label, self.empty = rec, label, empty
 
     def initialize(self, miscout=None, **kwargs):
         self.rec.event("initialize")
-        return make_state(self.label)
+        return make_state(self.label, self.empty)
 
 
 class IOpStrict(InitializationOperator):
     """initialize() with exactly the signature of the abstract interface."""
-    def __init__(self, rec, label):
-        self.rec, self.label = rec, label
+    def __init__(self, rec, label, empty=()):
+        self.rec, self.label, self.empty = rec, label, empty
 
     def initialize(self, miscout, **kwargs):
         self.rec.event("initialize")
-        return make_state(self.label)
+        return make_state(self.label, self.empty)
 
 
 class LBook(Logbook):
@@ -402,13 +415,18 @@ class LBook(Logbook):
         raise NotImplementedError("the harness logbook is never written")
 
 
-def run_impl(rec, beh, preinit, nrep, ngen, loginit, seed, strict_init=False, split=None):
-    """One run of the real evolve() in the given environment, recorded in `rec` (also when evolve() raises)."""
+def run_impl(rec, beh, preinit, nrep, ngen, loginit, seed, strict_init=False, split=None, empty=()):
+    """One run of the real evolve() in the given environment, recorded in `rec` (also when evolve() raises).
+    A programme constructed WITH a start state gets an InitializationOperator that would return a DIFFERENT
+    (fully populated, differently labelled) state, so a spurious re-initialisation is observable."""
     al = alphabet(seed)
-    initop = (IOpStrict if strict_init else IOpLenient)(rec, al["label"])
+    if preinit:
+        initop = (IOpStrict if strict_init else IOpLenient)(rec, "re-initialised:" + al["label"], ())
+    else:
+        initop = (IOpStrict if strict_init else IOpLenient)(rec, al["label"], empty)
     kw = {}
     if preinit:
-        st = make_state(al["label"])
+        st = make_state(al["label"], empty)
         rec.keep.append(st)
         kw = {"start_" + c: d for c, d in zip(CONT, st)}
     prog = RecurrentSelectionBreedingProgram(
@@ -424,7 +442,9 @@ def run_impl(rec, beh, preinit, nrep, ngen, loginit, seed, strict_init=False, sp
 
 # ============================================================================
 # conformance: model behaviour (list of [label, post-state]) vs recorded events
-def _model_content(label, c, outer, inner):
+def _model_content(label, c, outer, inner, empty=()):
+    if c in empty:
+        return (tuple(outer), tuple(inner))
     base = f"{label}:{c}"
     return ((base,) + tuple(outer), (base,) + tuple(inner))
 
@@ -437,13 +457,13 @@ def _fail(sig, detail):
     raise Violation(SIG + sig, detail)
 
 
-def conform(rec, s0, steps, seed):
+def conform(rec, s0, steps, seed, empty=()):
     """Raise Violation at the first step at which the recorded trace departs from the model behaviour.
     steps: list of (action label, post-state).  Returns the number of observable calls compared."""
     al = alphabet(seed)
     lab, rep0, t_max = al["label"], al["rep0"], al["t_max"]
     honest = all(b in ("pure", "inplace") for b in s0["beh"].values())
-    init_content = [_model_content(lab, c, (), ()) for c in CONT]
+    init_content = [_model_content(lab, c, (), (), empty) for c in CONT]
     ev = rec.events
     k = 0
     pre = s0
@@ -486,7 +506,7 @@ def conform(rec, s0, steps, seed):
         work = pre["work"]
         # the stored start state when the call is made (nobody but the environment may have touched it)
         for ci, c in enumerate(CONT):
-            exp = _model_content(lab, c, (), pre["start"][c])
+            exp = _model_content(lab, c, (), pre["start"][c], empty)
             if e["start_before"][ci] != exp:
                 _fail("start-state-modified", f"when (call, replicate, generation, t_cur)={ctxt} is made "
                                               f"start_{c}={e['start_before'][ci]}; protocol: {exp}")
@@ -505,9 +525,9 @@ def conform(rec, s0, steps, seed):
         # content as the model says
         for ci, c in enumerate(CONT):
             w = work[c]
-            exp = _model_content(lab, c, w["outer"], w["inner"])
+            exp = _model_content(lab, c, w["outer"], w["inner"], empty)
             if first_of_rep and honest and exp != init_content[ci]:
-                raise HarnessMismatch("model: a replicate does not start from the initial state under an honest environment")
+                raise HarnessMismatch("model: a replicate does not start from the initial state under an honest environment", empty)
             if rv["content"][ci] != exp:
                 _fail("replicate-start-state" if first_of_rep else "received-state:" + where,
                       f"(call, replicate, generation, t_cur)={ctxt} received {c}={rv['content'][ci]}; protocol: {exp} "
@@ -517,7 +537,7 @@ def conform(rec, s0, steps, seed):
             pw = post["work"]
             for ci, c in enumerate(CONT):          # the environment did what the model says it does (harness self-check)
                 w = pw[c]
-                if rt["content"][ci] != _model_content(lab, c, w["outer"], w["inner"]) or rt["shares"][ci] != (False, w["alias"], w["alias"]):
+                if rt["content"][ci] != _model_content(lab, c, w["outer"], w["inner"], empty) or rt["shares"][ci] != (False, w["alias"], w["alias"]):
                     raise HarnessMismatch(f"harness operator {name} and model disagree on {c} after {ctxt}: "
                                           f"{rt['content'][ci]} {rt['shares'][ci]} vs {w}")
             cur_ids = rt["id"]
@@ -535,7 +555,7 @@ def conform(rec, s0, steps, seed):
         # stored start state after the step
         ps = post["start"]
         for ci, c in enumerate(CONT):
-            exp = _model_content(lab, c, (), ps[c])
+            exp = _model_content(lab, c, (), ps[c], empty)
             if e["start_after"][ci] != exp:
                 _fail("start-state-modified", f"after (call, replicate, generation, t_cur)={ctxt} start_{c}={e['start_after'][ci]}; protocol: {exp}")
         first_of_rep = False
@@ -545,7 +565,7 @@ def conform(rec, s0, steps, seed):
               f"the protocol behaviour ends after {k} observable calls, the programme made {len(ev)}: extra {[e['ev'] for e in ev[k:k + 6]]}")
     # the stored initial state at the end
     for ci, c in enumerate(CONT):
-        exp = _model_content(lab, c, (), pre["start"][c])
+        exp = _model_content(lab, c, (), pre["start"][c], empty)
         if honest and exp != init_content[ci]:
             raise HarnessMismatch("model: start state modified under an honest environment")
         if rec.final_start[ci] != exp:
@@ -555,7 +575,8 @@ def conform(rec, s0, steps, seed):
 
 def replay_behaviour(ctx, consts, s0, steps, seed, variants=None):
     """Replay one model behaviour on the implementation in every applicable variant."""
-    nrep, ngen, loginit = consts
+    nrep, ngen, loginit, empty = consts
+    empty = tuple(empty)
     beh, preinit = s0["beh"], s0["preinit"]
     todo = [("single", False, None)]
     for k in range(1, nrep):
@@ -566,22 +587,22 @@ def replay_behaviour(ctx, consts, s0, steps, seed, variants=None):
         todo = [t for t in todo if (t[0], t[2]) in variants]
     base_ok = True
     for vname, strict, split in todo:
-        case = dict(nrep=nrep, ngen=ngen, loginit=loginit, beh=dict(beh), preinit=preinit, variant=vname,
+        case = dict(nrep=nrep, ngen=ngen, loginit=loginit, empty=list(empty), beh=dict(beh), preinit=preinit, variant=vname,
                     split=list(split) if split else None, seed=seed, s0=s0, steps=[[l, s] for l, s in steps])
         box = {}
 
         def go():
             rec = box["rec"] = Recorder()
-            run_impl(rec, beh, preinit, nrep, ngen, loginit, seed, strict_init=strict, split=split)
+            run_impl(rec, beh, preinit, nrep, ngen, loginit, seed, strict_init=strict, split=split, empty=empty)
             try:
-                box["ncmp"] = conform(rec, s0, steps, seed)
+                box["ncmp"] = conform(rec, s0, steps, seed, empty)
             except HarnessMismatch as ex:
                 box["mismatch"] = ex
 
         ctx.evaluations += 1
         ok = ctx.guard(go, case=case, sig_prefix=SIG + ("strict-init:" if strict else ""))
         if "mismatch" in box:
-            raise RuntimeError(f"model/harness mismatch for {dict(beh)} preinit={preinit} NREP={nrep} NGEN={ngen} LOGINIT={loginit} "
+            raise RuntimeError(f"model/harness mismatch for {dict(beh)} preinit={preinit} NREP={nrep} NGEN={ngen} LOGINIT={loginit} EMPTY={empty} "
                                f"[{vname}]: {box['mismatch']}")
         rec = box.get("rec")
         if rec is not None:
@@ -601,6 +622,15 @@ def replay_behaviour(ctx, consts, s0, steps, seed, variants=None):
 
 
 # ============================================================================
+# initial-state alphabet: which of the five start containers are empty dicts.  The full (NREP, NGEN, LOGINIT) grid is
+# run with fully populated containers; the other initial states on a sub-grid (empty containers interact with
+# initialisation, reset and aliasing, not with the number of generations).
+EMPTY_VARIANTS = {"quick": [("pheno", "bval"), CONT],
+                  "thorough": [("pheno",), ("pheno", "bval"), ("genome", "geno", "gmod"), CONT]}
+EMPTY_GRID = {"quick": [(2, 1, True), (1, 0, False), (0, 1, True)],
+              "thorough": [(3, 2, True), (2, 1, True), (2, 1, False), (1, 2, True), (1, 0, False), (0, 1, True)]}
+
+
 def shards(tier, seed):
     T = tier == "thorough"
     out = []
@@ -608,21 +638,27 @@ def shards(tier, seed):
         for ngen in (2, 1, 0):
             for loginit in (True, False):
                 for b in BEHS:
-                    out.append((nrep, ngen, loginit, (b,)))
+                    out.append((nrep, ngen, loginit, (b,), ()))
+    for empty in EMPTY_VARIANTS[tier]:
+        for nrep, ngen, loginit in EMPTY_GRID[tier]:
+            for b in BEHS:
+                out.append((nrep, ngen, loginit, (b,), tuple(empty)))
     for b in BEHS:                      # nrep = 0: evolve() only initialises
-        out.append((0, 1, True, (b,)))
+        out.append((0, 1, True, (b,), ()))
     return out
 
 
 def run_shard(spec, ctx):
-    nrep, ngen, loginit, pselbeh = spec
+    nrep, ngen, loginit, pselbeh, empty = spec
     T = ctx.tier == "thorough"
     ctx.bounds.update({"NREP": [0, 1, 2, 3] if T else [0, 1, 2], "NGEN": [0, 1, 2], "LOGINIT": [True, False],
                        "operator_behaviours": list(BEHS), "operators": list(OPS), "containers": list(CONT),
-                       "start_state": ["constructor", "InitializationOperator"], "container_depth": 3})
+                       "start_state": ["constructor", "InitializationOperator"], "container_depth": 3,
+                       "empty_start_containers": [list(e) for e in [()] + EMPTY_VARIANTS[ctx.tier]],
+                       "empty_start_containers_grid(NREP,NGEN,LOGINIT)": [list(g) for g in EMPTY_GRID[ctx.tier]]})
     scratch = tempfile.mkdtemp(prefix="c20_", dir=os.environ.get("VERIF_SCRATCH") or None)
     try:
-        stats, dot = run_tlc(scratch, nrep, ngen, loginit, pselbeh)
+        stats, dot = run_tlc(scratch, nrep, ngen, loginit, pselbeh, empty)
         nodes, init, edges, nedges, texts = parse_dot(dot)
     finally:
         shutil.rmtree(scratch, ignore_errors=True)
@@ -633,7 +669,7 @@ def run_shard(spec, ctx):
     ctx.count("tlc-edges", nedges)
     ctx.count("tlc-initial-states", len(init))
     ctx.transitions += nedges
-    ckey = (nrep, ngen, loginit)
+    ckey = (nrep, ngen, loginit, tuple(empty))
     cbytes = repr(ckey).encode()
     for nid in nodes:
         ctx.state(hashlib.blake2b(cbytes + texts[nid], digest_size=8).digest())
@@ -652,6 +688,8 @@ def run_shard(spec, ctx):
         for o in OPS:
             ctx.flag(f"beh:{o}:{beh[o]}")
         ctx.flag(f"preinit:{s0['preinit']}")
+        if empty and s0["preinit"]:
+            ctx.count("behaviours-given-a-start-state-with-empty-containers")
         final = steps[-1][1] if steps else s0
         if any(final["start"][c] for c in CONT):
             ctx.flag("environment-corrupted-start")
@@ -661,7 +699,7 @@ def run_shard(spec, ctx):
         if nrep >= 2 and any(b in ("inplace", "mixed") for b in beh.values()):
             ctx.count("behaviours-with-in-place-mutation-before-a-later-replicate")
         if ctx.evaluations % 997 == 1:
-            ctx.sample(dict(NREP=nrep, NGEN=ngen, LOGINIT=loginit, beh=beh, preinit=s0["preinit"],
+            ctx.sample(dict(NREP=nrep, NGEN=ngen, LOGINIT=loginit, EMPTY=list(empty), beh=beh, preinit=s0["preinit"],
                             model_actions=[l for l, _ in path],
                             model_t_cur=[s["t_cur"] for _, s in steps], final_work=final["work"], final_start=final["start"]))
     for l in labels_seen:
@@ -669,6 +707,7 @@ def run_shard(spec, ctx):
     ctx.flag(f"const:NREP={nrep}")
     ctx.flag(f"const:NGEN={ngen}")
     ctx.flag(f"const:LOGINIT={loginit}")
+    ctx.flag("const:EMPTY=" + ("none" if not empty else "all" if len(empty) == len(CONT) else "some"))
 
 
 def finalize(ctx, tier, seed):
@@ -685,6 +724,9 @@ def finalize(ctx, tier, seed):
     for n in (0, 1, 2):
         assert f"const:NGEN={n}" in ctx.flags
     assert "const:LOGINIT=True" in ctx.flags and "const:LOGINIT=False" in ctx.flags
+    for e in ("none", "some", "all"):
+        assert "const:EMPTY=" + e in ctx.flags, e
+    assert ctx.counters.get("behaviours-given-a-start-state-with-empty-containers", 0) >= 512
     nshard = len(shards(tier, seed))
     assert ctx.counters.get("tlc-runs", 0) == nshard, ctx.counters.get("tlc-runs")
     nconst = nshard // len(BEHS)
@@ -707,5 +749,6 @@ def finalize(ctx, tier, seed):
 
 def replay(case, ctx):
     steps = [(l, s) for l, s in case["steps"]]
-    replay_behaviour(ctx, (case["nrep"], case["ngen"], case["loginit"]), case["s0"], steps, case.get("seed", ctx.seed),
+    replay_behaviour(ctx, (case["nrep"], case["ngen"], case["loginit"], tuple(case.get("empty", ()))), case["s0"], steps,
+                     case.get("seed", ctx.seed),
                      variants=[(case["variant"], tuple(case["split"]) if case.get("split") else None)])
